@@ -490,4 +490,117 @@ def boundedAffineImage {n : Nat} (R : Rnd) (closed : Bool) (var : Nat) (el : Nat
 def unconstrain {n : Nat} (R : Rnd) (closed : Bool) (var : Nat) (m : DBM n) : Option Mat :=
   (closeFirst R.up closed m).map (forgetAll (n + 1) (var + 1))
 
+/-! ## `refine(var, relsym, expr, denominator)` (private; `:3645-4039`)
+
+Called by `generalized_affine_preimage` (`expr.coefficient(var) == 0`) on a closed matrix.  The second
+component is the shortest-path-closed flag afterwards (`add_dbm_constraint` resets it only when it
+stores; the `EQUAL` general case resets it always; the `deduce_*` helpers never touch it). -/
+
+/-- `add_dbm_constraint(i, j, k)` together with the closed flag -/
+def addDbmF (mf : Mat × Bool) (i j : Nat) (k : ExtRat) : Mat × Bool :=
+  if mf.1 i j ≤ k then mf else (mf.1.set i j k, false)
+
+def refineVar (R : Rnd) (n var : Nat) (rel : RelSym) (e : Nat → Int) (b den : Int) (m : Mat) : Mat × Bool :=
+  let v := var + 1
+  let w := lastNonzero e n
+  let t0 := exprT e w
+  -- `if (t == 1 && expr.get(Variable(w - 1)) != denominator) t = 2;` (`:3675`)
+  let t := if t0 = 1 ∧ e (w - 1) ≠ den then 2 else t0
+  if t = 0 then
+    match rel with
+    | .eq => addDbmF (addDbmF (m, true) 0 v (divRoundUp R b den)) v 0 (divRoundUp R b (- den))
+    | .le => addDbmF (m, true) 0 v (divRoundUp R b den)
+    | .ge => addDbmF (m, true) v 0 (divRoundUp R b (- den))
+  else if t = 1 then
+    match rel with
+    | .eq => addDbmF (addDbmF (m, true) w v (divRoundUp R b den)) v w (divRoundUp R b (- den))
+    | .le => addDbmF (m, true) w v (divRoundUp R b den)
+    | .ge => addDbmF (m, true) v w (divRoundUp R b (- den))
+  else
+    let is_sc := den > 0
+    let sc_b := if is_sc then b else - b
+    let minus_sc_b := if is_sc then - b else b
+    let sc_denom := if is_sc then den else - den
+    let sc := scExpr e den
+    match rel with
+    | .eq =>
+      let pn := loopUp w (fun i (pq : Acc × Acc) => (accStepA R m sc true i pq.1, accStepA R m sc false i pq.2))
+        (⟨R.up (sc_b : Rat), 0, 0⟩, ⟨R.up (minus_sc_b : Rat), 0, 0⟩)
+      if pn.1.cnt > 1 ∧ pn.2.cnt > 1 then (m, true)
+      else (exploitLower R v w sc sc_denom pn.2 (exploitUpper R v w sc sc_denom pn.1 m), false)
+    | .le =>
+      let st := loopUp w (accStepG R m sc true) ⟨R.up (sc_b : Rat), 0, 0⟩
+      let sum := if sc_denom ≠ 1 then divRoundUpByPositive R st.sum sc_denom else st.sum
+      if st.cnt = 0 then
+        let mf := addDbmF (m, true) 0 v sum
+        (deduceVMinusU R.up v w sc sc_denom sum mf.1, mf.2)
+      else if st.cnt = 1 then
+        -- no `pinf_index != v` test here (`:3966`): `expr.coefficient(var) == 0` is a precondition
+        if e (st.idx - 1) = den then addDbmF (m, true) st.idx v sum else (m, true)
+      else (m, true)
+    | .ge =>
+      let st := loopUp w (accStepG R m sc false) ⟨R.up (minus_sc_b : Rat), 0, 0⟩
+      let sum := if sc_denom ≠ 1 then divRoundUpByPositive R st.sum sc_denom else st.sum
+      if st.cnt = 0 then
+        let mf := addDbmF (m, true) v 0 sum
+        (deduceUMinusV R.up v w sc sc_denom sum mf.1, mf.2)
+      else if st.cnt = 1 then
+        if st.idx ≠ v ∧ e (st.idx - 1) = den then addDbmF (m, true) v st.idx sum else (m, true)
+      else (m, true)
+
+/-! ## `affine_preimage`, `generalized_affine_preimage(var, relsym, expr, denominator)` -/
+
+/-- `affine_preimage(var, expr, denominator)` after the initial closure (`:5170-5244`): the inverse image
+through `affine_image` when the transformation is invertible, otherwise all constraints on `var` are
+forgotten -/
+def affinePreimageCore (R : Rnd) (n var : Nat) (e : Nat → Int) (b den : Int) (m : Mat) : Mat :=
+  let v := var + 1
+  let w := lastNonzero e n
+  let t := exprT e w
+  if t = 0 then forgetAll (n + 1) v m
+  else
+    let a := e (w - 1)
+    if t = 1 ∧ (a = den ∨ a = - den) then
+      if w = v then
+        -- `affine_image(var, denominator*var - b, a)`
+        affineImageCore R n var (fun i => if i = var then den else 0) (- b) a m
+      else forgetAll (n + 1) v m
+    else
+      let expr_v := e var
+      if expr_v ≠ 0 then
+        -- `inverse = (expr_v + denominator)*var - expr; affine_image(var, inverse, expr_v)`
+        affineImageCore R n var (fun i => (if i = var then expr_v + den else 0) - e i) (- b) expr_v m
+      else forgetAll (n + 1) v m
+
+def affinePreimage {n : Nat} (R : Rnd) (closed : Bool) (var : Nat) (e : Nat → Int) (b den : Int) (m : DBM n) :
+    Option Mat :=
+  (closeFirst R.up closed m).map (affinePreimageCore R n var e b den)
+
+/-- `generalized_affine_preimage(var, relsym, expr, denominator)` for `relsym ∈ {≤, ≥}` after the initial
+closure (`:6227-6253`); `none` = marked empty (by the `is_empty()` after `refine`) -/
+def genAffinePreimageCore (R : Rnd) (n var : Nat) (isLe : Bool) (e : Nat → Int) (b den : Int) (m : Mat) :
+    Option Mat :=
+  let v := var + 1
+  let expr_v := e var
+  if expr_v ≠ 0 then
+    -- `inverse = expr - (expr_v + denominator)*var`, `inverse_denom = -expr_v`
+    let inverse : Nat → Int := fun i => e i - (if i = var then expr_v + den else 0)
+    let inverse_denom := - expr_v
+    let isLe' := if Int.sign den = Int.sign inverse_denom then isLe else !isLe
+    some (genAffineImageCore R n var isLe' inverse b inverse_denom m)
+  else
+    let mf := refineVar R n var (if isLe then .le else .ge) e b den m
+    -- `is_empty()`: the closure runs unless the shape is still marked closed
+    if mf.2 then some (forgetAll (n + 1) v mf.1)
+    else
+      let d : DBM n := DBM.ofMat n mf.1
+      if DBM.closureEmpty R.up d then none else some (forgetAll (n + 1) v (DBM.closure R.up d).e)
+
+def genAffinePreimage {n : Nat} (R : Rnd) (closed : Bool) (var : Nat) (rel : RelSym) (e : Nat → Int) (b den : Int)
+    (m : DBM n) : Option Mat :=
+  match rel with
+  | .eq => affinePreimage R closed var e b den m
+  | .le => (closeFirst R.up closed m).bind (genAffinePreimageCore R n var true e b den)
+  | .ge => (closeFirst R.up closed m).bind (genAffinePreimageCore R n var false e b den)
+
 end PPLV.WR
